@@ -10,3 +10,4 @@ ASSUMPTIONS = ["no code looks at the bytes, which is why byte values, sizes and 
 def run(rep, W, ctx):
     WR.S.s_sql_closed(rep, W)
     WR.c06(rep, W)
+    WR.S.s_failmodes(rep, W)     # "every payload from one byte up to the size limit": no size- or content-dependent failure below the HTTP layer
